@@ -153,6 +153,9 @@ def b_str(ex, x=''):
 
 def b_bytes(ex, x=b'', *a):
     x = ex.concretize(x)
+    from .symmap import Combined
+    if isinstance(x, Combined):
+        return Combined(x.snapshot, x.order, x.each_rev, x.start, as_list=False)
     if isinstance(x, (bytes, bytearray)):
         return bytes(x)
     if isinstance(x, SBytes):
